@@ -33,3 +33,17 @@ Definition chk_tsf_hyp (c : tsf_hyp_case) : bool :=
   forallb (fun i => forallb (fun j => Qle_bool 0 (mq Vt i j) && Qle_bool (mq Vt i j) (mq V i j + eps)) I) I &&
   forallb (fun i => forallb (fun j => Qle_bool (mq V i j) (rho * mq Vt i j + nth i tk 0)) I) I &&
   forallb (fun i => Qle_bool (nQ * nth i tk 0) (rho * mq Vt i (nth i fav O))) I.
+
+(* numeric facts about the float thresholds assumed by the end-to-end theorem KarvFinal.karv_end_to_end:
+   rho >= 1, 0 <= tau, tau non-increasing, v_fav <= rho tau_1, tau_l <= rho tau_(l+1), m tau_k <= rho v_fav *)
+Definition karv_num_case : Type := (list Q * list (list Q) * Q * nat * nat)%type.
+Definition chk_karv_num (c : karv_num_case) : bool :=
+  let '(vfav, tau, rho, m, k) := c in
+  let n := length vfav in
+  let t := fun i l => nth (l - 1) (nth i tau []) 0 in
+  Qle_bool 1 rho && (1 <=? k)%nat &&
+  forallb (fun i =>
+     forallb (fun l => Qle_bool 0 (t i l)) (seq 1 k) &&
+     forallb (fun l => Qle_bool (t i (S l)) (t i l) && Qle_bool (t i l) (rho * t i (S l))) (seq 1 (k - 1)) &&
+     Qle_bool (nth i vfav 0) (rho * t i 1%nat) &&
+     Qle_bool (inject_Z (Z.of_nat m) * t i k) (rho * nth i vfav 0)) (seq 0 n).
